@@ -3,6 +3,8 @@ package checks
 import (
 	"crypto/x509"
 	"fmt"
+	"testing"
+	"testing/synctest"
 	"time"
 
 	"github.com/google/go-tdx-guest/abi"
@@ -49,14 +51,54 @@ func (f *failGetter) Get(url string) (map[string][]string, []byte, error) {
 	return nil, nil, fmt.Errorf("no network in this configuration")
 }
 
-// verifyRaw calls verify.RawTdxQuote under the panic catcher.
-func verifyRaw(raw []byte, o *verify.Options) core.Outcome {
-	return core.Call(func() error { return verify.RawTdxQuote(raw, o) })
+// BubbleTB is the *testing.T that testing/synctest bubbles hang off (set by the test binary's entry).
+var BubbleTB *testing.T
+
+// slowPCS returns the simulated PCS behind a getter if its network has latency.
+func slowPCS(g trust.HTTPSGetter) *world.PCS {
+	if p, ok := g.(*world.PCS); ok && p != nil && p.Latency != nil && BubbleTB != nil {
+		return p
+	}
+	return nil
 }
 
-// verifyMsg calls verify.TdxQuote under the panic catcher.
+// callOnNet runs one library call under the panic catcher.  If the world's network has latency, the
+// call runs inside a testing/synctest bubble: every fetch then takes simulated time on a fake clock,
+// computation takes none, and goroutines the code under test may start are part of the bubble — so the
+// order in which fetches and computations complete is decided by the latency profile (a function of the
+// seed), not by the Go scheduler.  Goroutines left blocked when the call returns show up as the bubble's
+// deadlock panic and are reported in the outcome.
+func callOnNet(g trust.HTTPSGetter, f func() error) core.Outcome {
+	p := slowPCS(g)
+	if p == nil {
+		return core.Call(f)
+	}
+	var out core.Outcome
+	func() {
+		defer func() {
+			if pv := recover(); pv != nil {
+				// the bubble's own complaint (goroutines still blocked after the call returned)
+				out.Leak = fmt.Sprint(pv)
+			}
+		}()
+		synctest.Test(BubbleTB, func(*testing.T) {
+			p.InBubble = true
+			defer func() { p.InBubble = false }()
+			out = core.Call(f)
+		})
+	}()
+	p.InBubble = false
+	return out
+}
+
+// verifyRaw calls verify.RawTdxQuote under the panic catcher (on the world's network, see callOnNet).
+func verifyRaw(raw []byte, o *verify.Options) core.Outcome {
+	return callOnNet(o.Getter, func() error { return verify.RawTdxQuote(raw, o) })
+}
+
+// verifyMsg calls verify.TdxQuote under the panic catcher (on the world's network, see callOnNet).
 func verifyMsg(q any, o *verify.Options) core.Outcome {
-	return core.Call(func() error { return verify.TdxQuote(q, o) })
+	return callOnNet(o.Getter, func() error { return verify.TdxQuote(q, o) })
 }
 
 // worldOpts is mkOpts for a world's own PCS, pool and times.
